@@ -104,6 +104,11 @@ func posOf(p *lexer.Position) posT {
 
 // runParse records the real event stream; failAt > 0 makes the failAt-th callback return the sentinel.
 func runParse(text string, failAt int, failErr error) (events []string, err error, after int, pan any) {
+	return runParseWith(text, failAt, failErr, true, true)
+}
+
+// runParseWith: both callbacks of Parse are optional; withTok / withProd say which ones are given.
+func runParseWith(text string, failAt int, failErr error, withTok, withProd bool) (events []string, err error, after int, pan any) {
 	defer func() {
 		if p := recover(); p != nil {
 			pan = p
@@ -126,13 +131,21 @@ func runParse(text string, failAt int, failErr error) (events []string, err erro
 		}
 		return nil
 	}
-	err = p.Parse(func(t *lexer.Token) error {
-		events = append(events, fmt.Sprintf("T %s %q %s", string(t.Terminal), t.Lexeme, posOf(&t.Pos)))
-		return step()
-	}, func(i int) error {
-		events = append(events, fmt.Sprintf("P %d", i))
-		return step()
-	})
+	var tokF func(*lexer.Token) error
+	var prodF func(int) error
+	if withTok {
+		tokF = func(t *lexer.Token) error {
+			events = append(events, fmt.Sprintf("T %s %q %s", string(t.Terminal), t.Lexeme, posOf(&t.Pos)))
+			return step()
+		}
+	}
+	if withProd {
+		prodF = func(i int) error {
+			events = append(events, fmt.Sprintf("P %d", i))
+			return step()
+		}
+	}
+	err = p.Parse(tokF, prodF)
 	return
 }
 
@@ -218,6 +231,51 @@ func checkText(r *ev.Run, text, family string, faults bool) {
 	}
 	if d := diff(x.events, events); d != "" {
 		r.Report("", fmt.Sprintf("Parser.Parse callback sequence differs from the reverse rightmost derivation %s\n%s", d, text), in)
+	}
+	// both callbacks are optional: with only one of them (or none) the other stream must be what it was
+	for _, sub := range []struct {
+		name      string
+		tok, prod bool
+		prefix    string
+	}{{"only the token callback", true, false, "T "}, {"only the production callback", false, true, "P "}, {"no callback", false, false, "-"}} {
+		var want []string
+		for _, e := range x.events {
+			if strings.HasPrefix(e, sub.prefix) {
+				want = append(want, e)
+			}
+		}
+		got, err, _, pan := runParseWith(text, 0, nil, sub.tok, sub.prod)
+		r.Add("executions", 1)
+		switch {
+		case pan != nil:
+			r.Report("", fmt.Sprintf("Parser.Parse with %s panics: %v\n%s", sub.name, pan, text), in)
+		case err != nil:
+			r.Report("", fmt.Sprintf("Parser.Parse with %s rejects a valid specification: %v\n%s", sub.name, err, text), in)
+		default:
+			if d := diff(want, got); d != "" {
+				r.Report("", fmt.Sprintf("Parser.Parse with %s: the callback sequence differs from the one observed with both callbacks %s\n%s", sub.name, d, text), in)
+			}
+		}
+		if !faults || len(want) == 0 || (r.Quick() && r.Get("specs")%4 != 0) {
+			continue // quick: the fault sweep with a single callback for every fourth specification
+		}
+		for k := 1; k <= len(want); k++ {
+			ev2, err, after, pan := runParseWith(text, k, sentinel, sub.tok, sub.prod)
+			r.Add("executions", 1)
+			r.Add("fault_executions", 1)
+			if pan != nil {
+				continue
+			}
+			rep := map[string]any{"Text": text, "FailAt": k}
+			switch {
+			case err == nil:
+				r.Report("", fmt.Sprintf("Parser.Parse with %s succeeds although callback %d of %d returned an error\n%s", sub.name, k, len(want), text), rep)
+			case !errors.Is(err, sentinel):
+				r.Report("", fmt.Sprintf("Parser.Parse with %s returns %q, not the error returned by callback %d\n%s", sub.name, err, k, text), rep)
+			case after > 0 || len(ev2) != k:
+				r.Report("", fmt.Sprintf("Parser.Parse with %s invoked %d callbacks after callback %d failed (events %d)\n%s", sub.name, after, k, len(ev2), text), rep)
+			}
+		}
 	}
 	for mode := range resultModes {
 		xm := x
@@ -308,7 +366,7 @@ func main() {
 		r.Finish()
 	}
 	if r.Fork(16) {
-		r.Set("rule", "the specification space shared with C11 (every right-hand side up to the node bound, every declaration sequence up to the length bound with semicolon variants, bracket nestings, empty specifications), each in canonical and in one-token-per-line layout; per specification one fault-free execution per entry point and per kind of evaluator result (fresh numbers, nil always, nil every other call, strings) plus one execution per callback index and per error identity (a plain error, io.EOF, an error wrapping io.EOF, a *parser.ParseError) with that callback failing; non-trivial = any specification; distinct by text")
+		r.Set("rule", "the specification space shared with C11 (every right-hand side up to the node bound, every declaration sequence up to the length bound with semicolon variants, bracket nestings, empty specifications), each in canonical and in one-token-per-line layout; per specification one fault-free execution per entry point and per kind of evaluator result (fresh numbers, nil always, nil every other call, strings) plus one execution per callback index and per error identity (a plain error, io.EOF, an error wrapping io.EOF, a *parser.ParseError) with that callback failing; Parser.Parse also with only the token callback, only the production callback and none (both are optional): the remaining stream must be unchanged, and every index of it is made to fail; non-trivial = any specification; distinct by text")
 		r.Set("evaluations", r.Get("executions"))
 		r.Finish()
 	}
